@@ -10,6 +10,9 @@ package main
 //                                deferred function closes a connection)
 //   srvCloseIdlesWakes           number of `conn.conn.SetReadDeadline(…)` calls in tcpHandler.CloseIdles (the
 //                                repair wakes the receive loop instead of closing)
+//   srvInvokeDecDeferred         number of `defer atomic.AddInt32(&connSt.numInvoke, -1)` statements inside the
+//                                handler closure of tcpHandler.handleConn (1: the decrement also runs on the
+//                                early return for one-way requests / empty responses; 0: it can be skipped)
 //   srvRecvDrainChecks           comparisons `atomic.LoadInt32(&connSt.numInvoke) == 0` in recv (the
 //                                deferred drain-then-close)
 
@@ -129,6 +132,25 @@ func init() {
 		add("srvCloseIdlesCloses", v, ok)
 		v, ok = h.countCalls("tcpHandler.CloseIdles", func(c string) bool { return c == "conn.conn.SetReadDeadline" })
 		add("srvCloseIdlesWakes", v, ok)
+		// handleConn: the handler's decrement of numInvoke is a defer inside the closure
+		if fd := h.funcDecl("tcpHandler.handleConn"); fd != nil {
+			var n int64
+			ast.Inspect(fd, func(x ast.Node) bool {
+				lit, ok := x.(*ast.FuncLit)
+				if !ok {
+					return true
+				}
+				ast.Inspect(lit.Body, func(y ast.Node) bool {
+					if d, ok := y.(*ast.DeferStmt); ok &&
+						exprStr(h.fset, d.Call) == "atomic.AddInt32(&connSt.numInvoke, -1)" {
+						n++
+					}
+					return true
+				})
+				return false
+			})
+			add("srvInvokeDecDeferred", n, true)
+		}
 		// the deferred drain in recv: `atomic.LoadInt32(&connSt.numInvoke) == 0`
 		if fd := h.funcDecl("tcpHandler.recv"); fd != nil {
 			var n int64
